@@ -3,6 +3,7 @@ namespace Inspector
 def generatedImportSets : List (List String) := [
   ["\"bytes\"", "\"encoding/json\"", "\"gen/decl\"", "\"github.com/koykov/byteconv\"", "\"github.com/koykov/inspector\""],
   ["\"bytes\"", "\"encoding/json\"", "\"gen/decl\"", "\"github.com/koykov/byteconv\"", "\"github.com/koykov/inspector\"", "\"strconv\""],
+  ["\"bytes\"", "\"encoding/json\"", "\"gen/decl\"", "\"github.com/koykov/inspector\""],
   ["\"bytes\"", "\"encoding/json\"", "\"github.com/koykov/byteconv\"", "\"github.com/koykov/inspector\"", "\"github.com/koykov/inspector/testobj\"", "\"strconv\""],
   ["\"encoding/json\"", "\"gen/decl\"", "\"github.com/koykov/byteconv\"", "\"github.com/koykov/inspector\""],
   ["\"encoding/json\"", "\"gen/decl\"", "\"github.com/koykov/inspector\""],
@@ -10,5 +11,5 @@ def generatedImportSets : List (List String) := [
   ["\"encoding/json\"", "\"github.com/koykov/inspector\"", "\"github.com/koykov/inspector/testobj\""],
   ["\"encoding/json\"", "\"github.com/koykov/inspector\"", "\"github.com/koykov/inspector/testobj\"", "\"strconv\""]
 ]
-def generatedFilesScanned : Nat := 426
+def generatedFilesScanned : Nat := 427
 end Inspector
